@@ -18,6 +18,16 @@ CLAIMED = {
         "6 C07",
         TECH,
     ),
+    "C14": (
+        "Bounded solver-based check of the real cache classes (shared=False): every abstract state reachable with <= 3 distinct puts "
+        "(all key orders), then one (quick) or two (thorough) operations with symbolic opcode/key/value, observed through the public "
+        "API only (presence, get, len, and the eviction order probed with fresh puts) against an LRU / score / oldest-file model; "
+        "HybridCache durations and the memoize clock are symbolic reals; DiskCache runs on tmpfs with a logical ctime and is re-opened.",
+        "Trusted: z3, CrossHair path exhaustion and builtin models; floats modelled as finite reals (score ties tolerated at relative 1e-9); "
+        "logical ctime clock; token pickle. Outside: shared=True / multi-process, pickling guard, max_size > 3, keys outside 0..3.",
+        "6 C14",
+        TECH,
+    ),
 }
 
 NOT_APPLICABLE = {
